@@ -122,6 +122,7 @@ type vfE2H struct {
 	nextSeq int
 	ids     map[int]MessageID
 	sizes   map[int]int
+	topicOf map[int]int
 	fails   []string
 	hist    map[string]int
 	busyMu  sync.Mutex
@@ -191,6 +192,7 @@ func (h *vfE2H) start(cfg vfE2Cfg) {
 	h.byCID = map[int64]int{}
 	h.ids = map[int]MessageID{}
 	h.sizes = map[int]int{}
+	h.topicOf = map[int]int{}
 	h.nextK = 1
 	h.nextSeq = 1
 	h.aborted = false
